@@ -76,11 +76,15 @@ fn run_views(sc: &Value) -> Value {
     let pixels = unpix(&sc["pixels"]);
     let writes = sc["writes"].as_array().unwrap();
     let tag = format!("{:x}", sc["id"].as_str().map(|s| s.len()).unwrap_or(0) + writes.len() * 131 + (w * 7 + h) as usize);
+    let layer = sc["layer"].as_bool().unwrap_or(false);
     let r = std::panic::catch_unwind(|| {
         let mut obs = Vec::new();
         let into;
         if ctor == "from_backing" {
             let mut dt = DrawTarget::from_backing(w, h, pixels.clone());
+            if layer {
+                dt.push_layer(0.5);
+            }
             obs.push(observe(&dt, &tag));
             for wr in writes {
                 apply_write(&mut dt, wr);
@@ -89,6 +93,10 @@ fn run_views(sc: &Value) -> Value {
             into = pix(&dt.into_inner());
         } else {
             let mut dt = if ctor == "new" { DrawTarget::new(w, h) } else { DrawTarget::from_vec(w, h, pixels.clone()) };
+            // an open layer changes nothing: all four views, the PNG export and into_vec are the surface
+            if layer {
+                dt.push_layer(0.5);
+            }
             obs.push(observe(&dt, &tag));
             for wr in writes {
                 apply_write(&mut dt, wr);
